@@ -169,6 +169,7 @@ func Show(v Val) string {
 type Func struct {
 	Params []string
 	Body   []*Node
+	Env    *env // lexical environment of the defun form (a defun inside let/let*/lambda closes over it)
 }
 
 type env struct {
@@ -316,7 +317,7 @@ func (m *Machine) callUser(name string, args []Val) Val {
 	if len(args) != len(fn.Params) {
 		fail("function %s called with %d arguments, takes %d", name, len(args), len(fn.Params))
 	}
-	ne := &env{vars: map[string]Val{}}
+	ne := &env{vars: map[string]Val{}, parent: fn.Env}
 	for i, p := range fn.Params {
 		ne.vars[p] = args[i]
 	}
@@ -393,7 +394,7 @@ func (m *Machine) eval(n *Node, e *env) Val {
 	case "lambda":
 		return &Closure{Params: params(a[0]), Body: a[1:], Env: e}
 	case "defun":
-		m.Funcs[a[0].Sym] = &Func{Params: params(a[1]), Body: a[2:]}
+		m.Funcs[a[0].Sym] = &Func{Params: params(a[1]), Body: a[2:], Env: e}
 		return Symbol(a[0].Sym)
 	case "defvar":
 		if _, has := m.Globals[a[0].Sym]; !has {
